@@ -28,6 +28,7 @@ import (
 	"github.com/logrange/logrange/pkg/model/field"
 	"github.com/logrange/logrange/pkg/model/tag"
 	"github.com/logrange/logrange/pkg/partition"
+	"github.com/logrange/logrange/pkg/pipe"
 	"github.com/logrange/range/pkg/records/chunk/chunkfs"
 	"github.com/logrange/range/pkg/records/journal"
 	"github.com/logrange/range/pkg/utils/fileutil"
@@ -123,6 +124,61 @@ func hook(point, src string) {
 		g.arrived <- struct{}{}
 		<-g.release
 	}
+}
+
+// schedule point at the top of ppipe.saveState (pkg/pipe hook): a worker of pipe `pipe` that has copied records of
+// source `src` and is about to save its position. One-shot gates: the goroutine that arrives reports its id and waits.
+type saveGate struct {
+	arrived chan int64
+	release chan struct{}
+}
+
+var saveGates = map[string]*saveGate{}
+
+func pipeHook(point, pname, src string) {
+	if point != "pipe-save-state" {
+		return
+	}
+	k := pname + "\x00" + src
+	gatesMu.Lock()
+	g := saveGates[k]
+	if g != nil {
+		delete(saveGates, k)
+	}
+	gatesMu.Unlock()
+	if g != nil {
+		g.arrived <- goid()
+		<-g.release
+	}
+}
+
+func armSave(pname, src string) *saveGate {
+	g := &saveGate{arrived: make(chan int64, 1), release: make(chan struct{})}
+	gatesMu.Lock()
+	saveGates[pname+"\x00"+src] = g
+	gatesMu.Unlock()
+	return g
+}
+
+func disarmSave(pname, src string) {
+	gatesMu.Lock()
+	delete(saveGates, pname+"\x00"+src)
+	gatesMu.Unlock()
+}
+
+// goid: the id of the calling goroutine, read off its own stack dump ("goroutine 123 [running]:")
+func goid() int64 {
+	buf := make([]byte, 64)
+	n := runtime.Stack(buf, false)
+	f := strings.Fields(string(buf[:n]))
+	if len(f) < 2 {
+		return -1
+	}
+	id, err := strconv.ParseInt(f[1], 10, 64)
+	if err != nil {
+		return -1
+	}
+	return id
 }
 
 // ---------------------------------------------------------------- helpers
@@ -318,7 +374,7 @@ type pipeRun struct {
 	// epochs of one name: prev = the deleted pipe this one re-creates; base = per source, how many events of it the
 	// destination held when this pipe was created; a pipe that was re-created is superseded: its observation is
 	// frozen (what the destination held, per source, right before the re-creation)
-	barAt      int64 // the harness's barrier counter when the pipe was created
+	heldDel    bool // deleted while one of its workers stood between its journal write and saveState
 	prev       *pipeRun
 	base       []int
 	superseded bool
@@ -630,7 +686,6 @@ func (r *runner) run() error {
 				return fmt.Errorf("%s: %v", q, err)
 			}
 			p.created = true
-			p.barAt = r.barTs
 			copy(p.pre, r.counts())
 			copy(p.preFl, r.flushed)
 		case "delete":
@@ -644,17 +699,9 @@ func (r *runner) run() error {
 					break
 				}
 			}
-			// A pipe with an empty source condition also copies the harness's sentinel events (partition barrier=b), and
-			// nothing above waits for that worker. DELETE PIPE between its journal write and its saveState would let it
-			// save the positions AFTER ppipe.delete removed the file (saveState does not look at pp.deleted), and a pipe
-			// created again under the name would load them: the pipe is deleted when this worker, too, has saved.
-			if p.def.From == "" && r.barTs > p.barAt && r.barSrc != "" {
-				end, _ := endPos(r.srv, r.barSrc)
-				WaitFor(deadline, func() bool {
-					pos, _, _, ok := r.srv.Pipes.VC10PipeState(p.def.Name, r.barSrc)
-					return ok && pos == end
-				})
-			}
+			// (A pipe with an empty source condition also copies the harness's sentinel events, partition barrier=b, and
+			// nothing waits for that worker: it may stand anywhere in its loop now. ppipe.saveState refuses to save for a
+			// deleted pipe, so that is harmless; the step delete-held below puts a worker there on purpose.)
 			if _, err := r.srv.Exec("DELETE PIPE " + p.def.Name); err != nil {
 				return err
 			}
@@ -672,6 +719,89 @@ func (r *runner) run() error {
 			for s := range sc.Sources {
 				if p.def.Match[s] {
 					p.ops[s] = append(p.ops[s], "SDelete")
+				}
+			}
+		case "delete-held":
+			// DELETE PIPE while a worker of the pipe stands between Journals.Write (the batch is copied) and saveState:
+			// the worker is held at the schedule point at the top of ppipe.saveState, the pipe is deleted, the harness
+			// waits until the saved positions are removed, then the worker goes on.
+			p := r.pipes[st.Pipe]
+			b := st.Batches[0]
+			s := b.Src
+			if err := r.ensureSrc(s); err != nil {
+				return err
+			}
+			id := r.srcIds[s]
+			if !p.created || p.deleted || !p.def.Match[s] || !p.seen[s] {
+				return fmt.Errorf("%s: needs a live pipe that has copied from source %d", what, s)
+			}
+			h0 := hitCount(id)
+			starts := r.expectedStarts(s)
+			live := 0
+			for _, q := range r.livePipes() {
+				if q.def.Match[s] {
+					live++
+				}
+			}
+			g := armSave(p.def.Name, id)
+			if err := writeBatch(r.srv, tagLine(sc.Sources[s]), b.Evs); err != nil {
+				disarmSave(p.def.Name, id)
+				close(g.release)
+				return err
+			}
+			if !r.waitParked(s, h0, starts) {
+				r.fail("pipe-worker-not-started", fmt.Sprintf("%s: %d worker(s) expected to start for source %d did not reach their wait", what, starts, s))
+			}
+			r.syncSrc(s)
+			var gid int64
+			select {
+			case gid = <-g.arrived:
+			case <-time.After(deadline):
+				disarmSave(p.def.Name, id)
+				close(g.release)
+				r.fail("pipe-not-caught-up", fmt.Sprintf("%s: the worker of pipe %s for source %d did not copy the batch and come to save its position within %v", what, p.def.Name, s, deadline))
+				return errVerdict
+			}
+			if _, err := r.srv.Exec("DELETE PIPE " + p.def.Name); err != nil {
+				close(g.release)
+				return err
+			}
+			r.waitStateFileGone(p.def.Name)
+			p.deleted = true
+			p.heldDel = true
+			close(g.release)
+			// the worker finishes: its goroutine leaves the dump
+			mark := fmt.Sprintf("goroutine %d [", gid)
+			if !WaitFor(deadline, func() bool { return !goroutineIn(mark) }) {
+				r.fail("pipe-worker-not-parked", fmt.Sprintf("%s: the worker of the deleted pipe %s did not finish within %v", what, p.def.Name, deadline))
+			}
+			newBySrc := map[int][]Ev{s: b.Evs}
+			if err := r.settle(newBySrc, map[int]int{s: h0 + starts + live - 1}, what); err != nil {
+				return err
+			}
+			r.syncDst()
+			d, err := readDst(r.srv, p.def.Name)
+			if err != nil {
+				return err
+			}
+			p.dstAtDel = len(d)
+			p.nontriv = true
+			for _, q := range r.pipes {
+				if !q.created || q.superseded || !q.def.Match[s] {
+					continue
+				}
+				if q.deleted && q != p {
+					q.postDel = true
+				}
+				q.ops[s] = append(q.ops[s], GApp("SWriteLate", gEvents(q, newBySrc[s])))
+				if q != p {
+					q.nontriv = true
+					q.seen[s] = true
+				}
+			}
+			for s2 := range sc.Sources {
+				if p.def.Match[s2] {
+					p.ops[s2] = append(p.ops[s2], "SDelete")
 				}
 			}
 		case "restart":
@@ -1392,6 +1522,10 @@ func (r *runner) finish() ([]Case, error) {
 						cls = "pipe-filter-not-applied"
 					} else if p.prev != nil && copiedEarlier(got, want, tg, r.written[s][:p.pre[s]]) {
 						cls = "pipe-recreated-copied-earlier-events"
+						if p.prev.heldDel {
+							// the earlier pipe was deleted while a worker of it was about to save its position
+							cls = "pipe-state-rewritten-after-delete"
+						}
 					} else if len(hist) > 0 && sameDEvs(got, append(hist, want...)) {
 						cls = "pipe-copied-unflushed-history"
 					} else if st := p.stale[s]; len(st) > 0 && sameDEvs(got, append(transformAll(tg, st), want...)) {
@@ -1808,6 +1942,45 @@ func genRecreate(r *Rng) *Scenario {
 	return sc
 }
 
+// DELETE PIPE while a worker of the pipe stands between its journal write and saveState, then events while no pipe of
+// the name exists, CREATE PIPE again under the name, more events
+func genHeld(r *Rng) *Scenario {
+	g := &gen{r: r, ts: int64(r.Range(0, 1000))}
+	sc := &Scenario{Stream: "recreate-held", Chunk: 1 << 20}
+	ns := r.Range(1, 2)
+	sc.Sources = mkSources(r, ns)
+	all := make([]bool, ns)
+	for i := range all {
+		all[i] = true
+	}
+	p0 := PipeDef{From: r.PickStr("", `sid like "s*"`), Match: all, NameKind: r.PickStr("", "us", "mix", "colon")}
+	p0.Name = pipeNameOf(p0.NameKind)
+	sc.Pipes = []PipeDef{p0}
+	if r.Chance(1, 2) {
+		sc.Steps = append(sc.Steps, genWave(g, r, ns, true, true, nil))
+	}
+	if r.Chance(1, 2) {
+		sc.Pipes = append(sc.Pipes, PipeDef{Name: pipeName(), Match: all})
+		sc.Steps = append(sc.Steps, Step{Kind: "create", Pipe: 1})
+	}
+	sc.Steps = append(sc.Steps, Step{Kind: "create", Pipe: 0})
+	for w := 0; w < r.Range(1, 2); w++ {
+		sc.Steps = append(sc.Steps, genWave(g, r, ns, true, w == 0, nil))
+	}
+	sc.Steps = append(sc.Steps, Step{Kind: "delete-held", Pipe: 0, Batches: []Batch{g.batch(0, r.Range(1, 5))}})
+	for w := 0; w < r.Range(1, 2); w++ {
+		sc.Steps = append(sc.Steps, genWave(g, r, ns, true, true, nil))
+	}
+	pd := p0
+	pd.Epoch = 1
+	sc.Pipes = append(sc.Pipes, pd)
+	sc.Steps = append(sc.Steps, Step{Kind: "create", Pipe: len(sc.Pipes) - 1})
+	for w := 0; w < r.Range(1, 2); w++ {
+		sc.Steps = append(sc.Steps, genWave(g, r, ns, true, true, nil))
+	}
+	return sc
+}
+
 // requests refused half-way (a record bigger than MaxRecordSize behind valid events): the stored prefix is copied like
 // any other events; mostly as the FIRST write to a source since the pipe was created
 func genPartial(r *Rng) *Scenario {
@@ -1991,10 +2164,21 @@ func corpus() []*Scenario {
 	race := &Scenario{Stream: "corpus-race", Chunk: 1 << 20, Sources: src,
 		Pipes: []PipeDef{{Name: pipeName(), Match: []bool{true}}},
 		Steps: []Step{{Kind: "create"}, {Kind: "race", FlushFirst: true, Batches: []Batch{{Src: 0, Evs: []Ev{{Ts: 1, Msg: "a", Keep: false}}}, {Src: 0, Evs: []Ev{{Ts: 2, Msg: "b", Keep: false}}}}}}}
-	return []*Scenario{flt, race}
+	// the witness of C10_recreate_stale_refuted: the positions a worker saves after DELETE PIPE must not reach a pipe
+	// created later under the name
+	hn := pipeName()
+	held := &Scenario{Stream: "corpus-held-delete", Chunk: 1 << 20, Sources: src,
+		Pipes: []PipeDef{{Name: hn, Match: []bool{true}}, {Name: hn, Match: []bool{true}, Epoch: 1}},
+		Steps: []Step{{Kind: "create"},
+			{Kind: "wave", Batches: []Batch{{Src: 0, Evs: []Ev{{Ts: 1, Msg: "a", Keep: false}, {Ts: 2, Msg: "b", Keep: false}}}}},
+			{Kind: "delete-held", Batches: []Batch{{Src: 0, Evs: []Ev{{Ts: 3, Msg: "c", Keep: false}}}}},
+			{Kind: "wave", Batches: []Batch{{Src: 0, Evs: []Ev{{Ts: 4, Msg: "between", Keep: false}}}}},
+			{Kind: "create", Pipe: 1},
+			{Kind: "wave", Batches: []Batch{{Src: 0, Evs: []Ev{{Ts: 5, Msg: "after", Keep: false}}}}}}}
+	return []*Scenario{flt, race, held}
 }
 
-const rule = "end-to-end scenarios on an in-process server: 1-4 source partitions (unique sid tag), 1-3 pipes over four source-condition shapes, waves of 1-3 batches of 1-13 events per source (chunk size 300-2000 bytes in half of the scenarios so that batches straddle roll-overs), pipe creation before/after existing history, a second pipe created mid-history, DELETE PIPE with a control pipe, clean restart, two first writers with inverted notifications (schedule hook), concurrent writers on known sources, worker idle time-out with a write shortly before it, DELETE PIPE + CREATE PIPE again under the same name (names with '_', '/', ':', '.', '-', upper case; events before, between and after; one case per epoch), requests refused half-way on a server with a small MaxRecordSize (the stored prefix counts as written; mostly the first write to a source since the pipe exists); one case per (pipe epoch, source); non-trivial iff the source matches the pipe and either a notification reached the pipe while it already knew the source (worker charged), or a restart/delete/re-creation/race/re-arm step was taken; distinct by scenario/pipe/source"
+const rule = "end-to-end scenarios on an in-process server: 1-4 source partitions (unique sid tag), 1-3 pipes over four source-condition shapes, waves of 1-3 batches of 1-13 events per source (chunk size 300-2000 bytes in half of the scenarios so that batches straddle roll-overs), pipe creation before/after existing history, a second pipe created mid-history, DELETE PIPE with a control pipe, clean restart, two first writers with inverted notifications (schedule hook), concurrent writers on known sources, worker idle time-out with a write shortly before it, DELETE PIPE + CREATE PIPE again under the same name (names with '_', '/', ':', '.', '-', upper case; events before, between and after; one case per epoch), the same with DELETE PIPE while a worker of the pipe is held between its journal write and saveState (schedule point in ppipe.saveState), requests refused half-way on a server with a small MaxRecordSize (the stored prefix counts as written; mostly the first write to a source since the pipe exists); one case per (pipe epoch, source); non-trivial iff the source matches the pipe and either a notification reached the pipe while it already knew the source (worker charged), or a restart/delete/re-creation/race/re-arm step was taken; distinct by scenario/pipe/source"
 
 // closeFdPool: the journal controller of the range library has no shutdown, so the reader file descriptors pooled by
 // a stopped server stay open for the life of the process (about 25 per scenario; a thorough run starts thousands of
@@ -2043,6 +2227,7 @@ func main() {
 	Main("C10", "C10K", func(c *Ctx) error {
 		partition.VC10SetHook(hook)
 		cursor.VC11SetHook(waitHook)
+		pipe.VC10SetPipeHook(pipeHook)
 		if c.Replay != nil {
 			var sc Scenario
 			if err := FromJSON(c.Replay, &sc); err != nil {
@@ -2115,6 +2300,9 @@ func main() {
 		}
 		for i := 0; i < c.N(10); i++ {
 			jobs = append(jobs, genPartial(c.Rng.Fork()))
+		}
+		for i := 0; i < c.N(4); i++ {
+			jobs = append(jobs, genHeld(c.Rng.Fork()))
 		}
 		results := make([][]Case, len(jobs))
 		errs := make([]error, len(jobs))
